@@ -6,7 +6,7 @@ M3: Plonk.tla - L0, Z_H, the permutation numerators / denominators, the chunked 
     an identity permutation with unit accumulators vanishes; PlonkEmit instantiates the terms for the real and synthetic shapes.
 M1: (a) on the real proofs the code's evalVanishingPoly equals the term and the identity holds; (b) random openings and challenges with
     the quotient openings SOLVED so that the identity holds must be accepted by PlonkChip.Verify - for the real descriptions (with
-    the real gates) and for synthetic ones (1..3 rounds, 2..80 routed wires, degree factors 1..8, Noop gate) - and (c) any single
+    the real gates) and for synthetic ones (1..3 rounds, 2..80 routed wires, degree factors 1..8, Noop gate; also Noop + Constant gate in one / two selector groups) - and (c) any single
     perturbed opening or challenge must be rejected.
 """
 import json
@@ -26,7 +26,8 @@ def run(ctx):
     ctx.rule = ("(description, opening/challenge set): real descriptions of both circuits with the proof's own data and seeded random data; synthetic descriptions "
                 "nc in 1..3 x routed wires x degree factor (seeded, including non-divisible pairs); each accepted set x seeded single perturbations; distinct = distinct data sets / perturbations")
     ctx.assumptions += ["gate constraint values of the real descriptions are taken from the repository's own gate code (C15 decides them)",
-                        "synthetic descriptions use the Noop gate only (no gate constraints)",
+                        "synthetic descriptions use the Noop gate only (no gate constraints) or Noop + ConstantGate{2} in one or two selector groups, with the gate "
+                        "constraints written out from plonky2's definition in the driver (not the repository's evaluator)",
                         "at zeta = 1 the code (like plonky2's recursive verifier) cannot form L0 and accepts nothing, although the identity can hold there "
                         "(Z(1) = 1): that single point is modelled as 'rejects' and its accept case is not replayed"]
     thorough = ctx.tier == "thorough"
@@ -46,6 +47,13 @@ def run(ctx):
         syn.append((rnd.randint(1, 3), rnd.randint(2, 80), rnd.randint(1, 8)))
     for nc, rw, qd in syn:
         shapes.append({"nc": nc, "rw": rw, "qd": qd, "ng": 0, "db": rnd.randint(2, 12)})
+    # synthetic descriptions WITH gate constraints: Noop + ConstantGate{2} in one selector group (layout 1: filter (0 - s), no unused-selector
+    # factor) and in two groups (layout 2: filter (UNUSED - s)); the gate values come from plonky2's definition written out in the driver
+    gsyn = [(1, 2, 2, 1), (2, 4, 2, 2), (1, 5, 2, 1), (2, 9, 4, 2)]
+    for _ in range(12 if thorough else 2):
+        gsyn.append((rnd.randint(1, 3), rnd.randint(2, 40), rnd.randint(1, 8), rnd.randint(1, 2)))
+    for nc, rw, qd, lay in gsyn:
+        shapes.append({"nc": nc, "rw": rw, "qd": qd, "ng": 2, "db": rnd.randint(2, 12), "_layout": lay})
     d = ctx.scratch("plonkemit")
     rq = os.path.join(d, "plonk_request.json")
     json.dump([{k: v for k, v in s.items() if not k.startswith("_")} for s in shapes], open(rq, "w"))
@@ -54,7 +62,9 @@ def run(ctx):
     env = {"VERIF_GL_SCHED": files["gl_sched"], "VERIF_PLANS": files["plans"]}
     jobs = []
     for i, s in enumerate(shapes):
-        if "_inst" in s:
+        if "_layout" in s:
+            jobs.append({"terms": terms, "part": "synthetic", "index": i, "layout": s["_layout"], "nrandom": 12 if thorough else 3, "nperturb": 10 if thorough else 4, "shard": 200 + i})
+        elif "_inst" in s:
             jobs.append({"terms": terms, "part": "real", "instance": s["_inst"], "index": i, "nrandom": 16 if thorough else 2, "nperturb": 10 if thorough else 3, "shard": i})
         else:
             jobs.append({"terms": terms, "part": "synthetic", "index": i, "nrandom": 12 if thorough else 2, "nperturb": 8 if thorough else 2, "shard": i})
